@@ -6,202 +6,295 @@ import Proofs.RetrieveEnd
 
 Admission of DA blobs (`Retrieve.classify` = `handlePotentialHeader` / `handlePotentialData` with
 `isUsingExpectedSingleSequencer`, `SignedHeader.ValidateBasic`, `isValidSignedData`) and of P2P headers
-(`Retrieve.p2pAdmit` = the test `HeaderStoreRetrieveLoop` applies), on BYTES decoded with the wire model, the
-third-party crypto being per-item oracle answers (`Oracle`: does the key THE ITEM CARRIES parse / verify the
-signature).  These are the definitions the driver executes and the differential check compares with the real
-handlers.
+(`Retrieve.p2pAdmit` = the test `HeaderStoreRetrieveLoop` applies), on BYTES decoded with the wire model.  These
+are the definitions the driver executes and the differential check compares with the real handlers.
 
-The full statements ("accepted ⇒ signed with the key of the proposer named in genesis") are **false** of the
-current code: the node knows the proposer's ADDRESS only, compares it with the address the item CLAIMS, and
-verifies the signature under the key the item CARRIES; nothing relates the carried key to the address
-(`types.KeyAddress` is never consulted on the verifying side).  They are kept as `def … : Prop`, refuted on
-kernel-checked witnesses built with the wire encoders, and proved under the explicit binding hypothesis a
-repair has to establish.  What does hold at full strength — (a) bad signatures, (b) foreign proposer address,
-(c) malformed signed data, (d) unaccepted material changes nothing — is proved without hypotheses. -/
+Since /repo e753a34 both validation functions require `Signer.Address == KeyAddress(Signer.PubKey)`; with
+"header names the genesis proposer's address = the signer's address" this binds the carried key to genesis.
+The address derivation is **part of the model**: `keyAddrOf` computes SHA-256 of the raw key that
+`ed25519Raw` extracts from the carried libp2p key envelope (wire model; the libp2p parsing rules — last
+occurrence wins, enum truncated to 32 bits, 32 data bytes — were confirmed against the real library and are
+exercised by the differential stream); only for the other key types libp2p accepts (RSA, secp256k1, ECDSA,
+whose `Raw()` re-encodes the key) the address is a per-blob oracle answer (`Oracle.keyAddr`, the real
+`types.KeyAddress`, computed by the harness).
+
+What remains hypothesis, and how it is expressed:
+* **Signature unforgeability (ed25519)** is not used in any proof.  The conclusions say "the item carries the
+  proposer's key `R` and the REAL verification of its signature under the carried key succeeded"
+  (`o.hdrSigOk` / `o.dataSigOk` = the oracle, i.e. `PubKey.Verify` run by the harness).  That only the holder of
+  the private key can make that verification succeed is the cryptographic assumption outside the model.
+* **No address collision (SHA-256)**: `AddrNoCollision R` — no other 32-byte raw key has the address of `R` —
+  and, for carried keys of another type, `OtherKeyTypeNoCollision o R pk` — the real address of such a key is
+  not the proposer's.  Both are explicit hypotheses of the `C03_*_full` theorems; the hypothesis-free forms
+  (`*_by_proposer_or_collision`) conclude "signed by the proposer, or here is a collision". -/
 namespace Spec.C03
 open Wire Chain Retrieve
 
-/-! ## first theorems (kept): what admission guarantees today -/
+/-! ## what admission guarantees, spelled out (the former `_partial` theorems, now with the binding) -/
 
 theorem classifyData_not_header (o : Oracle) (proposer bs : Bytes) (sh : SignedHeader) :
     classifyData o proposer bs ≠ .hdrAccepted sh := classifyData_not_hdrAccepted o proposer bs sh
 
-/-- **What admission of a DA header guarantees today** (`_partial`): an accepted header names the genesis
-proposer's address, carries a signer with that same address, and its signature verifies **under the key the blob
-itself carries**.  Nothing relates that key to the address. -/
+/-- an accepted DA header names the genesis proposer's address, its signer claims that address, carries a key
+**whose address it is**, and the signature verifies under that key -/
 theorem admit_selfconsistent_partial (o : Oracle) (proposer bs : Bytes) (sh : SignedHeader)
     (h : classify o proposer bs = .hdrAccepted sh) :
     sh.header.proposerAddress = proposer ∧ sh.header.proposerAddress = sh.signer.address ∧
     sh.signer.pubKey ≠ [] ∧ o.hdrSigOk = true := by
   obtain ⟨_, hvb, hp⟩ := (classify_hdrAccepted_iff o proposer bs sh).1 h
-  simp [validateBasicWire] at hvb
-  exact ⟨hp, hvb.1.1.2, hvb.1.2, hvb.2⟩
+  obtain ⟨_, _, h3, h4, _, h6⟩ := (validateBasicWire_iff o sh).1 hvb
+  exact ⟨hp, h3, h4, h6⟩
 
-/-- the same for signed data: accepted data names the proposer's address and verifies under the carried key -/
+/-- **the binding the repair established**: the address an accepted header's signer claims is the address of the
+key it carries, hence the proposer's address is the address of the carried key -/
+theorem accepted_header_key_bound (o : Oracle) (proposer bs : Bytes) (sh : SignedHeader)
+    (h : classify o proposer bs = .hdrAccepted sh) :
+    sh.signer.address = keyAddrOf o sh.signer.pubKey ∧ keyAddrOf o sh.signer.pubKey = proposer := by
+  obtain ⟨_, hvb, hp⟩ := (classify_hdrAccepted_iff o proposer bs sh).1 h
+  obtain ⟨_, _, h3, _, h5, _⟩ := (validateBasicWire_iff o sh).1 hvb
+  exact ⟨h5, by rw [← h5, ← h3, hp]⟩
+
 theorem admit_data_selfconsistent_partial (o : Oracle) (proposer bs : Bytes) (sd : SignedData)
     (h : classifyData o proposer bs = .dataAccepted sd) :
     sd.signer.address = proposer ∧ sd.signer.pubKey ≠ [] ∧ o.dataSigOk = true ∧ sd.data.txs ≠ [] := by
   obtain ⟨_, ht, _, hv⟩ := (classifyData_accepted_iff o proposer bs sd).1 h
-  simp [validSignedData] at hv
-  exact ⟨hv.1.1, hv.1.2, hv.2, ht⟩
-
-/-- the same for the P2P path: an admitted header names the proposer's address, its signer claims that address,
-it carries a signature and a key, and the signature verifies under the carried key -/
-theorem admit_p2p_selfconsistent_partial (o : Oracle) (proposer : Bytes) (sh : SignedHeader)
-    (h : p2pAdmit o proposer sh = true) :
-    sh.header.proposerAddress = proposer ∧ sh.header.proposerAddress = sh.signer.address ∧
-    sh.signature ≠ [] ∧ sh.signer.pubKey ≠ [] ∧ o.hdrSigOk = true := by
-  simp [p2pAdmit, validateBasicWire] at h
-  exact ⟨h.1, h.2.1.1.2, h.2.1.1.1.2, h.2.1.2, h.2.2⟩
+  obtain ⟨h1, h2, _, h4⟩ := (validSignedData_iff o proposer sd).1 hv
+  exact ⟨h1, h2, h4, ht⟩
 
 /-- signed data reaching sync through the full DA classification went through the data test -/
 theorem admit_data_via_classify (o : Oracle) (proposer bs : Bytes) (sd : SignedData)
     (h : classify o proposer bs = .dataAccepted sd) : classifyData o proposer bs = .dataAccepted sd :=
   ((classify_dataAccepted_iff o proposer bs sd).1 h).2.2.2
 
+theorem accepted_data_key_bound (o : Oracle) (proposer bs : Bytes) (sd : SignedData)
+    (h : classify o proposer bs = .dataAccepted sd) :
+    sd.signer.address = keyAddrOf o sd.signer.pubKey ∧ keyAddrOf o sd.signer.pubKey = proposer := by
+  obtain ⟨_, _, _, hv⟩ := (classifyData_accepted_iff o proposer bs sd).1 (admit_data_via_classify o proposer bs sd h)
+  obtain ⟨h1, _, h3, _⟩ := (validSignedData_iff o proposer sd).1 hv
+  exact ⟨h3, by rw [← h3, h1]⟩
+
+theorem admit_p2p_selfconsistent_partial (o : Oracle) (proposer : Bytes) (sh : SignedHeader)
+    (h : p2pAdmit o proposer sh = true) :
+    sh.header.proposerAddress = proposer ∧ sh.header.proposerAddress = sh.signer.address ∧
+    sh.signature ≠ [] ∧ sh.signer.pubKey ≠ [] ∧ o.hdrSigOk = true := by
+  simp only [p2pAdmit, Bool.and_eq_true, decide_eq_true_eq] at h
+  obtain ⟨_, h2, h3, h4, _, h6⟩ := (validateBasicWire_iff o sh).1 h.2
+  exact ⟨h.1, h3, h2, h4, h6⟩
+
+theorem admitted_p2p_key_bound (o : Oracle) (proposer : Bytes) (sh : SignedHeader)
+    (h : p2pAdmit o proposer sh = true) :
+    sh.signer.address = keyAddrOf o sh.signer.pubKey ∧ keyAddrOf o sh.signer.pubKey = proposer := by
+  simp only [p2pAdmit, Bool.and_eq_true, decide_eq_true_eq] at h
+  obtain ⟨_, _, h3, _, h5, _⟩ := (validateBasicWire_iff o sh).1 h.2
+  exact ⟨h5, by rw [← h5, ← h3, h.1]⟩
+
 /-! ## the full statements, in the property's vocabulary -/
 
-/-- "signed with the private key of the proposer named in genesis": the item carries the proposer's public key
-and its signature verifies under the key it carries (`o.hdrSigOk` is the real ed25519 verification, run by the
-harness on the carried key; unforgeability is the explicit cryptographic assumption) -/
-def SignedByProposer (o : Oracle) (proposerKey : Bytes) (sh : SignedHeader) : Prop :=
-  sh.signer.pubKey = proposerKey ∧ o.hdrSigOk = true
+/-- `types.KeyAddress` of an Ed25519 key with raw bytes `R`: what genesis names as the proposer's address -/
+def keyAddress (R : Bytes) : Bytes := sha256 R
 
-def DataSignedByProposer (o : Oracle) (proposerKey : Bytes) (sd : SignedData) : Prop :=
-  sd.signer.pubKey = proposerKey ∧ o.dataSigOk = true
+/-- "signed with the private key of the proposer named in genesis": the key the item carries IS the proposer's
+Ed25519 key `R` (as libp2p parses the carried bytes) and the real verification of the signature under the
+carried key succeeded -/
+def SignedByProposer (o : Oracle) (R : Bytes) (sh : SignedHeader) : Prop :=
+  ed25519Raw sh.signer.pubKey = some R ∧ o.hdrSigOk = true
 
-/-- the full statements are relative to the address derivation `addrOf` (genesis names
-`addrOf proposerKey`); `keyAddress` models `types.KeyAddress` (SHA-256 over the key bytes) -/
-def keyAddress (k : Bytes) : Bytes := sha256 k
+def DataSignedByProposer (o : Oracle) (R : Bytes) (sd : SignedData) : Prop :=
+  ed25519Raw sd.signer.pubKey = some R ∧ o.dataSigOk = true
 
-/-- every header accepted from the DA layer is signed by the genesis proposer -/
-def C03_header_full (addrOf : Bytes → Bytes) : Prop :=
-  ∀ (o : Oracle) (proposerKey bs : Bytes) (sh : SignedHeader),
-    classify o (addrOf proposerKey) bs = .hdrAccepted sh → SignedByProposer o proposerKey sh
+/-- the carried key `pk` is a DIFFERENT key with the proposer's address: another Ed25519 key whose SHA-256 equals
+that of `R`, or a key of another type whose real `KeyAddress` (oracle) is `sha256 R` (raw encodings of the other
+key types are never 32 bytes, so that is a collision too) -/
+def AddrCollision (o : Oracle) (R pk : Bytes) : Prop :=
+  (∃ R', ed25519Raw pk = some R' ∧ R'.length = 32 ∧ R' ≠ R ∧ sha256 R' = sha256 R) ∨
+  (ed25519Raw pk = none ∧ o.keyAddr = sha256 R)
 
-/-- every signed-data blob accepted from the DA layer is signed by the genesis proposer -/
-def C03_data_full (addrOf : Bytes → Bytes) : Prop :=
-  ∀ (o : Oracle) (proposerKey bs : Bytes) (sd : SignedData),
-    classify o (addrOf proposerKey) bs = .dataAccepted sd → DataSignedByProposer o proposerKey sd
+/-- no other 32-byte raw key has the address of `R` (second-preimage resistance of SHA-256 at `R`) -/
+def AddrNoCollision (R : Bytes) : Prop := ∀ R' : Bytes, R'.length = 32 → sha256 R' = sha256 R → R' = R
 
-/-- every header admitted from the P2P header store is signed by the genesis proposer -/
-def C03_p2p_full (addrOf : Bytes → Bytes) : Prop :=
-  ∀ (o : Oracle) (proposerKey : Bytes) (sh : SignedHeader),
-    p2pAdmit o (addrOf proposerKey) sh = true → SignedByProposer o proposerKey sh
+/-- a carried key of another type (RSA, secp256k1, ECDSA) does not have the proposer's address -/
+def OtherKeyTypeNoCollision (o : Oracle) (R pk : Bytes) : Prop := ed25519Raw pk = none → o.keyAddr ≠ sha256 R
 
-/-! ### witnesses: a self-consistent forgery under the proposer's address with a foreign key -/
+theorem no_collision_of_hyps {o : Oracle} {R pk : Bytes} (h1 : AddrNoCollision R)
+    (h2 : OtherKeyTypeNoCollision o R pk) : ¬ AddrCollision o R pk := by
+  rintro (⟨R', _, hl, hne, he⟩ | ⟨hn, he⟩)
+  · exact hne (h1 R' hl he)
+  · exact h2 hn he
 
-/-- the genesis proposer's (marshalled ed25519) public key, and a third party's -/
-def proposerKey : Bytes := [8, 1, 18, 32] ++ List.replicate 32 1
-def foreignKey : Bytes := [8, 1, 18, 32] ++ List.replicate 32 2
+/-- core step: a key whose (modelled) address is the proposer's is the proposer's key, or a collision -/
+theorem key_with_proposer_address (o : Oracle) (R pk : Bytes) (h : keyAddrOf o pk = keyAddress R) :
+    ed25519Raw pk = some R ∨ AddrCollision o R pk := by
+  cases hr : ed25519Raw pk with
+  | none => exact Or.inr (Or.inr ⟨hr, by rw [← keyAddrOf_other o hr]; exact h⟩)
+  | some R' =>
+    by_cases he : R' = R
+    · left; rw [he]
+    · right; left
+      exact ⟨R', hr, ed25519Raw_length hr, he, by rw [← keyAddrOf_ed25519 o hr]; exact h⟩
+
+/-! ### hypothesis-free forms: signed by the proposer, or a SHA-256 collision is in hand -/
+
+theorem header_by_proposer_or_collision (o : Oracle) (R bs : Bytes) (sh : SignedHeader)
+    (h : classify o (keyAddress R) bs = .hdrAccepted sh) :
+    SignedByProposer o R sh ∨ AddrCollision o R sh.signer.pubKey := by
+  rcases key_with_proposer_address o R _ (accepted_header_key_bound o _ bs sh h).2 with hk | hc
+  · exact Or.inl ⟨hk, (admit_selfconsistent_partial o _ bs sh h).2.2.2⟩
+  · exact Or.inr hc
+
+theorem data_by_proposer_or_collision (o : Oracle) (R bs : Bytes) (sd : SignedData)
+    (h : classify o (keyAddress R) bs = .dataAccepted sd) :
+    DataSignedByProposer o R sd ∨ AddrCollision o R sd.signer.pubKey := by
+  rcases key_with_proposer_address o R _ (accepted_data_key_bound o _ bs sd h).2 with hk | hc
+  · exact Or.inl ⟨hk, (admit_data_selfconsistent_partial o _ bs sd (admit_data_via_classify o _ bs sd h)).2.2.1⟩
+  · exact Or.inr hc
+
+theorem p2p_by_proposer_or_collision (o : Oracle) (R : Bytes) (sh : SignedHeader)
+    (h : p2pAdmit o (keyAddress R) sh = true) :
+    SignedByProposer o R sh ∨ AddrCollision o R sh.signer.pubKey := by
+  rcases key_with_proposer_address o R _ (admitted_p2p_key_bound o _ sh h).2 with hk | hc
+  · exact Or.inl ⟨hk, (admit_p2p_selfconsistent_partial o _ sh h).2.2.2.2⟩
+  · exact Or.inr hc
+
+/-! ### the full statements — THEOREMS of the repaired code, under the two explicit no-collision hypotheses -/
+
+/-- **every header accepted from the DA layer is signed by the genesis proposer** -/
+theorem C03_header_full (R : Bytes) (hnc : AddrNoCollision R) (o : Oracle) (bs : Bytes) (sh : SignedHeader)
+    (hother : OtherKeyTypeNoCollision o R sh.signer.pubKey)
+    (h : classify o (keyAddress R) bs = .hdrAccepted sh) : SignedByProposer o R sh :=
+  (header_by_proposer_or_collision o R bs sh h).resolve_right (no_collision_of_hyps hnc hother)
+
+/-- **every signed-data blob accepted from the DA layer is signed by the genesis proposer** -/
+theorem C03_data_full (R : Bytes) (hnc : AddrNoCollision R) (o : Oracle) (bs : Bytes) (sd : SignedData)
+    (hother : OtherKeyTypeNoCollision o R sd.signer.pubKey)
+    (h : classify o (keyAddress R) bs = .dataAccepted sd) : DataSignedByProposer o R sd :=
+  (data_by_proposer_or_collision o R bs sd h).resolve_right (no_collision_of_hyps hnc hother)
+
+/-- **every header admitted from the P2P header store is signed by the genesis proposer** -/
+theorem C03_p2p_full (R : Bytes) (hnc : AddrNoCollision R) (o : Oracle) (sh : SignedHeader)
+    (hother : OtherKeyTypeNoCollision o R sh.signer.pubKey)
+    (h : p2pAdmit o (keyAddress R) sh = true) : SignedByProposer o R sh :=
+  (p2p_by_proposer_or_collision o R sh h).resolve_right (no_collision_of_hyps hnc hother)
+
+/-! ### witnesses: genuine items are accepted (non-vacuity); the old forgeries are now rejected -/
+
+/-- the genesis proposer's raw Ed25519 key, its marshalled form (what `crypto.MarshalPublicKey` writes), and a
+third party's -/
+def proposerRaw : Bytes := List.replicate 32 1
+def proposerKey : Bytes := [8, 1, 18, 32] ++ proposerRaw
+def foreignRaw : Bytes := List.replicate 32 2
+def foreignKey : Bytes := [8, 1, 18, 32] ++ foreignRaw
 /-- the address genesis names -/
-def proposer : Bytes := keyAddress proposerKey
-/-- the third party's key parses and verifies the third party's own signatures -/
+def proposer : Bytes := keyAddress proposerRaw
+/-- every key parses, every signature verifies under the key that is carried -/
 def forgeO : Oracle := { keyOk := true, hdrSigOk := true, dataSigOk := true }
-/-- a header naming the proposer's address, signed by the third party with ITS key, the signer claiming the
-proposer's address -/
-def forgedHeader : SignedHeader :=
+
+def genuineHeader : SignedHeader :=
   { header := { height := 1, time := 5, proposerAddress := proposer, chainId := "c" }, signature := [5, 5],
-    signer := { address := proposer, pubKey := foreignKey } }
-def forgedData : SignedData :=
+    signer := { address := proposer, pubKey := proposerKey } }
+def genuineData : SignedData :=
   { data := { metadata := some { chainId := "c", height := 1, time := 5 }, txs := [[0xde, 0xad]] },
-    signature := [6, 6], signer := { address := proposer, pubKey := foreignKey } }
+    signature := [6, 6], signer := { address := proposer, pubKey := proposerKey } }
+/-- the self-consistent forgery of the finding: names the proposer's address, signed by the third party with ITS
+key, the signer claiming the proposer's address -/
+def forgedHeader : SignedHeader := { genuineHeader with signer := { address := proposer, pubKey := foreignKey } }
+def forgedData : SignedData := { genuineData with signer := { address := proposer, pubKey := foreignKey } }
 
-/-- kernel-evaluated: the forged header blob is accepted by the DA path -/
-theorem forged_header_accepted : classify forgeO proposer forgedHeader.encode = .hdrAccepted forgedHeader := by
+theorem genuine_header_accepted : classify forgeO proposer genuineHeader.encode = .hdrAccepted genuineHeader := by
   decide +kernel
-/-- kernel-evaluated: the forged signed-data blob is accepted by the DA path -/
-theorem forged_data_accepted : classify forgeO proposer forgedData.encode = .dataAccepted forgedData := by
+theorem genuine_data_accepted : classify forgeO proposer genuineData.encode = .dataAccepted genuineData := by
   decide +kernel
-/-- kernel-evaluated: the forged header is admitted by the P2P path -/
-theorem forged_header_p2p_admitted : p2pAdmit forgeO proposer forgedHeader = true := by decide +kernel
-/-- and it ends up marked DA-included and queued for sync -/
-theorem forged_header_marked_and_queued :
-    (handleBlobs proposer {} 7 [(forgedHeader.encode, forgeO)] []).1.hMarks = [(forgedHeader.header.hash, 7)] ∧
-    (handleBlobs proposer {} 7 [(forgedHeader.encode, forgeO)] []).2.length = 1 := by decide +kernel
+theorem genuine_header_p2p_admitted : p2pAdmit forgeO proposer genuineHeader = true := by decide +kernel
+example : SignedByProposer forgeO proposerRaw genuineHeader := ⟨by decide +kernel, rfl⟩
+example : SignedByProposer forgeO proposerRaw genuineHeader ∨ AddrCollision forgeO proposerRaw genuineHeader.signer.pubKey :=
+  header_by_proposer_or_collision forgeO proposerRaw _ _ genuine_header_accepted
+example : DataSignedByProposer forgeO proposerRaw genuineData ∨ AddrCollision forgeO proposerRaw genuineData.signer.pubKey :=
+  data_by_proposer_or_collision forgeO proposerRaw _ _ genuine_data_accepted
+example : SignedByProposer forgeO proposerRaw genuineHeader ∨ AddrCollision forgeO proposerRaw genuineHeader.signer.pubKey :=
+  p2p_by_proposer_or_collision forgeO proposerRaw _ genuine_header_p2p_admitted
+/- the full theorems apply to the accepted genuine items (the SHA-256 hypothesis stays a hypothesis; the
+other-key-type one is discharged: the carried key IS an Ed25519 key) -/
+example (hnc : AddrNoCollision proposerRaw) : SignedByProposer forgeO proposerRaw genuineHeader :=
+  C03_header_full _ hnc _ _ _ (fun h => absurd h (by decide +kernel)) genuine_header_accepted
+example (hnc : AddrNoCollision proposerRaw) : DataSignedByProposer forgeO proposerRaw genuineData :=
+  C03_data_full _ hnc _ _ _ (fun h => absurd h (by decide +kernel)) genuine_data_accepted
+example (hnc : AddrNoCollision proposerRaw) : SignedByProposer forgeO proposerRaw genuineHeader :=
+  C03_p2p_full _ hnc _ _ (fun h => absurd h (by decide +kernel)) genuine_header_p2p_admitted
+/-- the same key in a non-canonical libp2p envelope (unknown field appended, enum value wrapping 32 bits) is still
+the proposer's key -/
+example : ed25519Raw ([8, 0x81, 0x80, 0x80, 0x80, 0x10, 18, 32] ++ proposerRaw ++ [72, 7]) = some proposerRaw := by
+  decide +kernel
 
-theorem C03_header_full_fails : ¬ C03_header_full keyAddress := by
-  intro h
-  have := (h forgeO proposerKey forgedHeader.encode forgedHeader forged_header_accepted).1
-  revert this; decide
+/-- kernel-evaluated: **the old forged header is now rejected** by the DA path (not a header; not data either) -/
+theorem forged_header_rejected : classify forgeO proposer forgedHeader.encode = .ignored := by decide +kernel
+/-- kernel-evaluated: **the old forged signed-data blob is now rejected** -/
+theorem forged_data_rejected : classify forgeO proposer forgedData.encode = .ignored := by decide +kernel
+/-- kernel-evaluated: **the old forged header is no longer admitted by the P2P path** -/
+theorem forged_header_p2p_rejected : p2pAdmit forgeO proposer forgedHeader = false := by decide +kernel
+/-- and it is neither marked DA-included nor queued for sync -/
+theorem forged_header_not_marked_not_queued :
+    (handleBlobs proposer {} 7 [(forgedHeader.encode, forgeO), (forgedData.encode, forgeO)] []).1.hMarks = [] ∧
+    (handleBlobs proposer {} 7 [(forgedHeader.encode, forgeO), (forgedData.encode, forgeO)] []).1.dMarks = [] ∧
+    (handleBlobs proposer {} 7 [(forgedHeader.encode, forgeO), (forgedData.encode, forgeO)] []).2.length = 0 := by
+  decide +kernel
 
-theorem C03_data_full_fails : ¬ C03_data_full keyAddress := by
-  intro h
-  have := (h forgeO proposerKey forgedData.encode forgedData forged_data_accepted).1
-  revert this; decide
+/-! ## rejections that hold without any hypothesis -/
 
-theorem C03_p2p_full_fails : ¬ C03_p2p_full keyAddress := by
-  intro h
-  have := (h forgeO proposerKey forgedHeader forged_header_p2p_admitted).1
-  revert this; decide
+/-! ### the binding itself: near misses -/
 
-/-- **The forgery is generic**: for EVERY address derivation and every proposer key whose address is non-empty
-(and of a size a Go slice can have), and every other non-empty key `k'`, the header naming the proposer's
-address with signer `{address := proposer's, pubKey := k'}` is accepted — on the DA path from its encoded
-bytes, and on the P2P path.  So the full statements fail whatever `addrOf` is: nothing in the admission test
-depends on it. -/
-theorem forgery_accepted_for_any_derivation (addrOf : Bytes → Bytes) (k k' sig : Bytes) (hd : Header)
-    (ha : addrOf k ≠ []) (hk' : k' ≠ []) (hsig : sig ≠ []) (hp : hd.proposerAddress = addrOf k)
-    (hw : ({ header := hd, signature := sig, signer := { address := addrOf k, pubKey := k' } } : SignedHeader).WF) :
-    classify { keyOk := true, hdrSigOk := true, dataSigOk := false } (addrOf k)
-        ({ header := hd, signature := sig, signer := { address := addrOf k, pubKey := k' } } : SignedHeader).encode =
-      .hdrAccepted { header := hd, signature := sig, signer := { address := addrOf k, pubKey := k' } } ∧
-    p2pAdmit { keyOk := true, hdrSigOk := true, dataSigOk := false } (addrOf k)
-      { header := hd, signature := sig, signer := { address := addrOf k, pubKey := k' } } = true := by
-  have hv : validateBasicWire { keyOk := true, hdrSigOk := true, dataSigOk := false }
-      { header := hd, signature := sig, signer := { address := addrOf k, pubKey := k' } } = true := by
-    simp [validateBasicWire, hp, ha, hk', hsig]
-  exact ⟨classify_encode_header _ _ _ hw rfl hv hp, by simp [p2pAdmit, hv, hp]⟩
+/-- an item whose signer claims an address that is not the address of the key it carries is never accepted —
+the right key with a wrong address field, or a foreign key under the proposer's address -/
+theorem key_not_bound_never_accepted (o : Oracle) (p bs : Bytes) (sh : SignedHeader)
+    (h : sh.signer.address ≠ keyAddrOf o sh.signer.pubKey) : classify o p bs ≠ .hdrAccepted sh :=
+  fun hc => h (accepted_header_key_bound o p bs sh hc).1
 
-theorem C03_header_full_fails_any (addrOf : Bytes → Bytes) (k : Bytes) (ha : addrOf k ≠ [])
-    (hl : (addrOf k).length < 2 ^ 32) : ¬ C03_header_full addrOf := by
-  intro h
-  -- a short non-empty key different from `k`
-  obtain ⟨k', hk'ne, hk'k, hk'len⟩ : ∃ k' : Bytes, k' ≠ [] ∧ k' ≠ k ∧ k'.length = 1 := by
-    by_cases hk : k = [1]
-    · exact ⟨[2], by simp, by rw [hk]; decide, rfl⟩
-    · exact ⟨[1], by simp, fun he => hk he.symm, rfl⟩
-  have hw : ({ header := { proposerAddress := addrOf k }, signature := [1],
-               signer := { address := addrOf k, pubKey := k' } } : SignedHeader).WF := by
-    apply SignedHeader.wf_of_sizes <;> simp [Version.WF, Header.payload, utf8] <;> omega
-  exact hk'k (h _ k _ _ (forgery_accepted_for_any_derivation addrOf k k' [1] { proposerAddress := addrOf k }
-    ha hk'ne (by simp) rfl hw).1).1
+theorem data_key_not_bound_never_accepted (o : Oracle) (p bs : Bytes) (sd : SignedData)
+    (h : sd.signer.address ≠ keyAddrOf o sd.signer.pubKey) : classify o p bs ≠ .dataAccepted sd :=
+  fun hc => h (accepted_data_key_bound o p bs sd hc).1
 
-theorem C03_p2p_full_fails_any (addrOf : Bytes → Bytes) (k : Bytes) (ha : addrOf k ≠ []) : ¬ C03_p2p_full addrOf := by
-  intro h
-  obtain ⟨k', hk'ne, hk'k⟩ : ∃ k' : Bytes, k' ≠ [] ∧ k' ≠ k := by
-    by_cases hk : k = [1]
-    · exact ⟨[2], by simp, by rw [hk]; decide⟩
-    · exact ⟨[1], by simp, fun he => hk he.symm⟩
-  have hadm : p2pAdmit { keyOk := true, hdrSigOk := true, dataSigOk := false } (addrOf k)
-      { header := { proposerAddress := addrOf k }, signature := [1], signer := { address := addrOf k, pubKey := k' } } = true := by
-    simp [p2pAdmit, validateBasicWire, ha, hk'ne]
-  exact hk'k (h _ k _ hadm).1
+theorem key_not_bound_never_admitted_p2p (o : Oracle) (p : Bytes) (sh : SignedHeader)
+    (h : sh.signer.address ≠ keyAddrOf o sh.signer.pubKey) : p2pAdmit o p sh = false := by
+  cases hadm : p2pAdmit o p sh with
+  | false => rfl
+  | true => exact absurd (admitted_p2p_key_bound o p sh hadm).1 h
+example : p2pAdmit forgeO proposer forgedHeader = false :=
+  key_not_bound_never_admitted_p2p _ _ _ (by decide +kernel)
+/-- the right key with a wrong address field -/
+example : classify forgeO proposer
+    ({ genuineHeader with signer := { address := [1, 2, 3], pubKey := proposerKey } } : SignedHeader).encode = .ignored := by
+  decide +kernel
 
-theorem C03_data_full_fails_any (addrOf : Bytes → Bytes) (k : Bytes)
-    (hl : (addrOf k).length < 2 ^ 32) : ¬ C03_data_full addrOf := by
-  intro h
-  obtain ⟨k', hk'ne, hk'k, hk'len⟩ : ∃ k' : Bytes, k' ≠ [] ∧ k' ≠ k ∧ k'.length = 1 := by
-    by_cases hk : k = [1]
-    · exact ⟨[2], by simp, by rw [hk]; decide, rfl⟩
-    · exact ⟨[1], by simp, fun he => hk he.symm, rfl⟩
-  have hw : ({ data := { metadata := some {}, txs := [[1]] }, signature := [1],
-               signer := { address := addrOf k, pubKey := k' } } : SignedData).WF := by
-    have hs := Signer.encode_length_le { address := addrOf k, pubKey := k' }
-    have h1 : ({ metadata := some {}, txs := [[1]] } : Data).WF := by decide +kernel
-    have h2 : ({ metadata := some {}, txs := [[1]] } : Data).encode.length < 2 ^ 64 := by decide +kernel
-    refine ⟨h1, h2, by simp, ⟨?_, ?_⟩, ?_⟩ <;> simp only at hs ⊢ <;> omega
-  have hacc := classify_encode_data { keyOk := true, hdrSigOk := false, dataSigOk := true } (addrOf k)
-    { data := { metadata := some {}, txs := [[1]] }, signature := [1], signer := { address := addrOf k, pubKey := k' } }
-    hw rfl (by simp) rfl (by simp [validSignedData, hk'ne])
-  exact hk'k (h _ k _ _ hacc).1
+/-- **a foreign Ed25519 key is never accepted under the proposer's address** unless its SHA-256 collides: the
+general form of `forged_*_rejected` (any header, any bytes, any oracle answers, any third-party key `R'`) -/
+theorem foreign_key_never_accepted (o : Oracle) (R R' bs : Bytes) (sh : SignedHeader)
+    (hk : ed25519Raw sh.signer.pubKey = some R') (hne : sha256 R' ≠ sha256 R) :
+    classify o (keyAddress R) bs ≠ .hdrAccepted sh ∧ p2pAdmit o (keyAddress R) sh = false := by
+  have hka : keyAddrOf o sh.signer.pubKey ≠ keyAddress R := by rw [keyAddrOf_ed25519 o hk]; exact hne
+  refine ⟨fun hc => hka (accepted_header_key_bound o _ bs sh hc).2, ?_⟩
+  cases hadm : p2pAdmit o (keyAddress R) sh with
+  | false => rfl
+  | true => exact absurd (admitted_p2p_key_bound o _ sh hadm).2 hka
 
-example : ¬ C03_header_full keyAddress :=
-  C03_header_full_fails_any keyAddress proposerKey (by decide +kernel) (by decide +kernel)
-example : ¬ C03_p2p_full id := C03_p2p_full_fails_any id [3] (by decide)
-example : ¬ C03_data_full id := C03_data_full_fails_any id [3] (by decide)
+theorem foreign_key_data_never_accepted (o : Oracle) (R R' bs : Bytes) (sd : SignedData)
+    (hk : ed25519Raw sd.signer.pubKey = some R') (hne : sha256 R' ≠ sha256 R) :
+    classify o (keyAddress R) bs ≠ .dataAccepted sd := by
+  have hka : keyAddrOf o sd.signer.pubKey ≠ keyAddress R := by rw [keyAddrOf_ed25519 o hk]; exact hne
+  exact fun hc => hka (accepted_data_key_bound o _ bs sd hc).2
+example : classify forgeO (keyAddress proposerRaw) forgedHeader.encode ≠ .hdrAccepted forgedHeader ∧
+    p2pAdmit forgeO (keyAddress proposerRaw) forgedHeader = false :=
+  foreign_key_never_accepted forgeO proposerRaw foreignRaw _ _ (by decide +kernel) (by decide +kernel)
 
-/-! ## what does hold at full strength -/
+/-- an item without a key is never accepted, whatever address it claims -/
+theorem key_absent_never_accepted (o : Oracle) (p bs : Bytes) :
+    (∀ sh, sh.signer.pubKey = [] → classify o p bs ≠ .hdrAccepted sh ∧ p2pAdmit o p sh = false) ∧
+    (∀ sd, sd.signer.pubKey = [] → classify o p bs ≠ .dataAccepted sd) := by
+  refine ⟨fun sh hk => ⟨fun hc => (admit_selfconsistent_partial o p bs sh hc).2.2.1 hk, ?_⟩, fun sd hk hc => ?_⟩
+  · cases hadm : p2pAdmit o p sh with
+    | false => rfl
+    | true => exact absurd hk (admit_p2p_selfconsistent_partial o p sh hadm).2.2.2.1
+  · exact (admit_data_selfconsistent_partial o p bs sd (admit_data_via_classify o p bs sd hc)).2.1 hk
+example : classify forgeO proposer
+    ({ genuineHeader with signer := { address := proposer, pubKey := [] } } : SignedHeader).encode = .ignored := by
+  decide +kernel
 
 /-! ### (a) an item whose signature does not verify under the key it carries is never accepted
 
@@ -213,7 +306,7 @@ theorem bad_header_signature_never_accepted (o : Oracle) (p bs : Bytes) (sh : Si
   intro hc
   have := (admit_selfconsistent_partial o p bs sh hc).2.2.2
   rw [h] at this; exact Bool.false_ne_true this
-example : classify { forgeO with hdrSigOk := false, dataSigOk := false } proposer forgedHeader.encode = .ignored := by
+example : classify { forgeO with hdrSigOk := false, dataSigOk := false } proposer genuineHeader.encode = .ignored := by
   decide +kernel
 
 theorem bad_data_signature_never_accepted (o : Oracle) (p bs : Bytes) (sd : SignedData)
@@ -221,15 +314,14 @@ theorem bad_data_signature_never_accepted (o : Oracle) (p bs : Bytes) (sd : Sign
   intro hc
   have := (admit_data_selfconsistent_partial o p bs sd (admit_data_via_classify o p bs sd hc)).2.2.1
   rw [h] at this; exact Bool.false_ne_true this
-example : classify { forgeO with dataSigOk := false } proposer forgedData.encode = .ignored := by decide +kernel
+example : classify { forgeO with dataSigOk := false } proposer genuineData.encode = .ignored := by decide +kernel
 
 /-- a header without a signature is never accepted, whatever the oracle says -/
 theorem unsigned_header_never_accepted (o : Oracle) (p bs : Bytes) (sh : SignedHeader)
     (h : classify o p bs = .hdrAccepted sh) : sh.signature ≠ [] := by
   obtain ⟨_, hvb, _⟩ := (classify_hdrAccepted_iff o p bs sh).1 h
-  simp [validateBasicWire] at hvb
-  exact hvb.1.1.1.2
-example : classify forgeO proposer ({ forgedHeader with signature := [] } : SignedHeader).encode = .ignored := by
+  exact ((validateBasicWire_iff o sh).1 hvb).2.1
+example : classify forgeO proposer ({ genuineHeader with signature := [] } : SignedHeader).encode = .ignored := by
   decide +kernel
 
 /-- the same on the P2P path -/
@@ -242,7 +334,7 @@ theorem bad_signature_never_admitted_p2p (o : Oracle) (p : Bytes) (sh : SignedHe
     rcases h with h | h
     · rw [h] at this; exact absurd this.2.2.2.2 Bool.false_ne_true
     · exact absurd h this.2.2.1
-example : p2pAdmit { forgeO with hdrSigOk := false } proposer forgedHeader = false :=
+example : p2pAdmit { forgeO with hdrSigOk := false } proposer genuineHeader = false :=
   bad_signature_never_admitted_p2p _ _ _ (Or.inl rfl)
 
 /-- hence such a blob is neither handed to sync nor marked -/
@@ -262,11 +354,11 @@ theorem foreign_proposer_header_never_admitted_p2p (o : Oracle) (p : Bytes) (sh 
   cases hadm : p2pAdmit o p sh with
   | false => rfl
   | true => exact absurd (admit_p2p_selfconsistent_partial o p sh hadm).1 h
-example : p2pAdmit forgeO [1, 2, 3] forgedHeader = false :=
+example : p2pAdmit forgeO [1, 2, 3] genuineHeader = false :=
   foreign_proposer_header_never_admitted_p2p _ _ _ (by decide +kernel)
 
-/-- a self-consistent, correctly signed header of ANOTHER proposer is consumed as "unexpected sequencer": it is
-not re-tried as data, not handed on, not marked -/
+/-- a self-consistent, correctly signed header of ANOTHER proposer (address of its own key everywhere) is
+consumed as "unexpected sequencer": it is not re-tried as data, not handed on, not marked -/
 theorem foreign_proposer_header_consumed (o : Oracle) (p bs : Bytes) (sh : SignedHeader)
     (hs : headerStage o bs = .ok sh) (hv : validateBasicWire o sh = true) (h : sh.header.proposerAddress ≠ p) :
     classify o p bs = .hdrUnexpectedSequencer := by
@@ -275,7 +367,7 @@ theorem foreign_proposer_header_consumed (o : Oracle) (p bs : Bytes) (sh : Signe
     | nil => exact absurd hs (headerStage_nil o sh)
     | cons a l => rfl
   simp [classify, hne, hs, hv, h]
-example : classify forgeO [1, 2, 3] forgedHeader.encode = .hdrUnexpectedSequencer := by decide +kernel
+example : classify forgeO [1, 2, 3] genuineHeader.encode = .hdrUnexpectedSequencer := by decide +kernel
 
 /-! ### (c) signed data with a foreign signer address, no transactions or no metadata is never accepted -/
 
@@ -290,15 +382,57 @@ theorem malformed_data_never_accepted (o : Oracle) (p bs : Bytes) (sd : SignedDa
   · exact h h1.1
   · exact h1.2.2.2 h
   · rw [h] at h2; simp at h2
-example : classify forgeO [1, 2, 3] forgedData.encode = .ignored ∧
-    classify forgeO proposer ({ forgedData with data := { forgedData.data with txs := [] } } : SignedData).encode = .ignored ∧
-    classify forgeO proposer ({ forgedData with data := { forgedData.data with metadata := none } } : SignedData).encode = .ignored := by
+example : classify forgeO [1, 2, 3] genuineData.encode = .ignored ∧
+    classify forgeO proposer ({ genuineData with data := { genuineData.data with txs := [] } } : SignedData).encode = .ignored ∧
+    classify forgeO proposer ({ genuineData with data := { genuineData.data with metadata := none } } : SignedData).encode = .ignored := by
   decide +kernel
 
-/-! ### (d) non-interference at the hand-off: material that is not accepted changes nothing -/
+/-! ## (d) non-interference at the hand-off: whatever is not signed by the proposer changes nothing -/
 
-/-- **A blob that is not accepted changes nothing**, wherever it sits among the blobs of a DA height: the node
-(marks, caches, cursor, crash flag) and the events handed to sync are those of the list without it. -/
+/-- the blob, read as a header or as signed data, is signed by the proposer -/
+def BlobByProposer (o : Oracle) (R b : Bytes) : Prop :=
+  (∃ sh, headerStage o b = .ok sh ∧ SignedByProposer o R sh) ∨
+  (∃ sd, SignedData.decode (fun _ => o.keyOk) b = some sd ∧ DataSignedByProposer o R sd)
+
+/-- the blob carries a different key with the proposer's address (a SHA-256 collision) -/
+def BlobCollides (o : Oracle) (R b : Bytes) : Prop :=
+  (∃ sh, headerStage o b = .ok sh ∧ AddrCollision o R sh.signer.pubKey) ∨
+  (∃ sd, SignedData.decode (fun _ => o.keyOk) b = some sd ∧ AddrCollision o R sd.signer.pubKey)
+
+/-- **only what the proposer signed is handed on or marked** (or a collision is in hand) -/
+theorem accepted_blob_by_proposer_or_collision (o : Oracle) (R b : Bytes)
+    (h : accepting (classify o (keyAddress R) b) = true) : BlobByProposer o R b ∨ BlobCollides o R b := by
+  cases hc : classify o (keyAddress R) b with
+  | hdrAccepted sh =>
+    have hs := ((classify_hdrAccepted_iff o _ b sh).1 hc).1
+    rcases header_by_proposer_or_collision o R b sh hc with h1 | h1
+    · exact Or.inl (Or.inl ⟨sh, hs, h1⟩)
+    · exact Or.inr (Or.inl ⟨sh, hs, h1⟩)
+  | dataAccepted sd =>
+    have hs := ((classifyData_accepted_iff o _ b sd).1 (admit_data_via_classify o _ b sd hc)).1
+    rcases data_by_proposer_or_collision o R b sd hc with h1 | h1
+    · exact Or.inl (Or.inr ⟨sd, hs, h1⟩)
+    · exact Or.inr (Or.inr ⟨sd, hs, h1⟩)
+  | empty => rw [hc] at h; simp [accepting] at h
+  | hdrFromProtoErr => rw [hc] at h; simp [accepting] at h
+  | hdrUnexpectedSequencer => rw [hc] at h; simp [accepting] at h
+  | ignored => rw [hc] at h; simp [accepting] at h
+
+/-- **Every blob not signed by the proposer changes nothing**, wherever it sits among the blobs of a DA height —
+forgeries under the proposer's address included: the node (marks, caches, cursor, crash flag) and the events
+handed to sync are those of the list without it. -/
+theorem blob_not_by_proposer_changes_nothing (R : Bytes) (n : RNode) (da : Nat) (bs₁ bs₂ : List (Bytes × Oracle))
+    (b : Bytes) (o : Oracle) (evs : List Event) (hnp : ¬ BlobByProposer o R b) (hnc : ¬ BlobCollides o R b) :
+    handleBlobs (keyAddress R) n da (bs₁ ++ [(b, o)] ++ bs₂) evs = handleBlobs (keyAddress R) n da (bs₁ ++ bs₂) evs := by
+  apply handleBlobs_drop_unaccepted
+  cases ha : accepting (classify o (keyAddress R) b) with
+  | false => rfl
+  | true => rcases accepted_blob_by_proposer_or_collision o R b ha with h | h <;> contradiction
+example : handleBlobs proposer {} 7 ([(genuineHeader.encode, forgeO)] ++ [(forgedHeader.encode, forgeO)] ++ []) [] =
+    handleBlobs proposer {} 7 ([(genuineHeader.encode, forgeO)] ++ []) [] :=
+  handleBlobs_drop_unaccepted _ _ _ _ _ _ _ (by decide +kernel)
+
+/-- a blob that is not accepted changes nothing (the mechanism behind the above) -/
 theorem unaccepted_blob_changes_nothing (p : Bytes) (n : RNode) (da : Nat) (bs₁ bs₂ : List (Bytes × Oracle))
     (b : Bytes) (o : Oracle) (evs : List Event) (h : accepting (classify o p b) = false) :
     handleBlobs p n da (bs₁ ++ [(b, o)] ++ bs₂) evs = handleBlobs p n da (bs₁ ++ bs₂) evs :=
@@ -311,8 +445,6 @@ theorem only_accepted_blobs_matter (p : Bytes) (n : RNode) (da : Nat) (bs : List
     handleBlobs p n da bs evs = handleBlobs p n da (bs.filter fun b => accepting (classify b.2 p b.1)) evs :=
   handleBlobs_filter_accepted p n da bs evs
 
-/-- in particular everything that fails signature verification under the key it carries — whatever its bytes —
-can be deleted from the DA height without changing the node or what sync receives -/
 theorem unverifiable_blob_changes_nothing (p : Bytes) (n : RNode) (da : Nat) (bs₁ bs₂ : List (Bytes × Oracle))
     (b : Bytes) (o : Oracle) (evs : List Event) (h1 : o.hdrSigOk = false) (h2 : o.dataSigOk = false) :
     handleBlobs p n da (bs₁ ++ [(b, o)] ++ bs₂) evs = handleBlobs p n da (bs₁ ++ bs₂) evs :=
@@ -326,44 +458,5 @@ theorem blob_contents_cannot_stall_the_scan (p p' : Bytes) (n n' : RNode) (blobs
     (processNext p n blobs fuel outs used).2.2 = (processNext p' n' blobs' fuel outs used).2.2 :=
   processNext_verdict_length p p' n n' blobs blobs' hl fuel outs used
 example : (processNext proposer {} [([0xff], forgeO)] 10 [.errIds] 0).2.2 = (true, 2) := by decide +kernel
-
-/-! ### (e) the full statements under the binding a repair has to establish -/
-
-/-- the carried key derives the address the signer claims — the comparison `KeyAddress(pubKey) = address` the
-admission test does not make today -/
-def KeyBoundToAddress (addrOf : Bytes → Bytes) (s : Signer) : Prop := addrOf s.pubKey = s.address
-
-/-- the address derivation has no collisions (for `types.KeyAddress`: SHA-256 collision resistance) -/
-def AddrNoCollision (addrOf : Bytes → Bytes) : Prop := ∀ k k', addrOf k = addrOf k' → k = k'
-
-/-- **With the binding, all three full statements hold**: if the admission test additionally established that
-the carried key derives the claimed address, every accepted header (DA and P2P) and every accepted signed-data
-blob would carry the genesis proposer's key and verify under it. -/
-theorem C03_full_under_binding (addrOf : Bytes → Bytes) (hinj : AddrNoCollision addrOf) (o : Oracle)
-    (proposerKey : Bytes) :
-    (∀ bs sh, classify o (addrOf proposerKey) bs = .hdrAccepted sh → KeyBoundToAddress addrOf sh.signer →
-      SignedByProposer o proposerKey sh) ∧
-    (∀ bs sd, classify o (addrOf proposerKey) bs = .dataAccepted sd → KeyBoundToAddress addrOf sd.signer →
-      DataSignedByProposer o proposerKey sd) ∧
-    (∀ sh, p2pAdmit o (addrOf proposerKey) sh = true → KeyBoundToAddress addrOf sh.signer →
-      SignedByProposer o proposerKey sh) := by
-  refine ⟨?_, ?_, ?_⟩
-  · intro bs sh hc hb
-    obtain ⟨h1, h2, _, h4⟩ := admit_selfconsistent_partial o _ bs sh hc
-    exact ⟨hinj _ _ (by rw [hb, ← h2, h1]), h4⟩
-  · intro bs sd hc hb
-    obtain ⟨h1, _, h3, _⟩ := admit_data_selfconsistent_partial o _ bs sd (admit_data_via_classify o _ bs sd hc)
-    exact ⟨hinj _ _ (by rw [hb, h1]), h3⟩
-  · intro sh hc hb
-    obtain ⟨h1, h2, _, _, h5⟩ := admit_p2p_selfconsistent_partial o _ sh hc
-    exact ⟨hinj _ _ (by rw [hb, ← h2, h1]), h5⟩
-/- non-vacuity: with the identity as (collision-free) derivation, a header whose carried key IS bound to the
-claimed address is admitted and is the proposer's; the forged one violates the binding -/
-def boundHeader : SignedHeader :=
-  { header := { proposerAddress := [9] }, signature := [1], signer := { address := [9], pubKey := [9] } }
-example : p2pAdmit forgeO (id [9]) boundHeader = true ∧
-    KeyBoundToAddress id ({ address := [9], pubKey := [9] } : Signer) ∧ AddrNoCollision id ∧
-    ¬ KeyBoundToAddress keyAddress forgedHeader.signer :=
-  ⟨by decide, rfl, fun _ _ h => h, by unfold KeyBoundToAddress; decide +kernel⟩
 
 end Spec.C03
